@@ -16,10 +16,12 @@ demo_cmd=$(echo "$demo_cmd" | sed "s#out/m[0-9]*/#out/$(basename "$sd")/#g")
 echo "demo_cmd: $demo_cmd"
 # without change
 ( eval "$demo_cmd" ) > /tmp/confirm-clean.log 2>&1; rc_clean=$?
+grep -qE "^(FAIL|--- FAIL|panic:)" /tmp/confirm-clean.log && rc_clean=1
 git checkout -q -- . ; git clean -fdq -e out
 git apply "$sd/patch.diff" || { echo "RESULT patch-does-not-apply"; exit 1; }
 go build ./... > /tmp/confirm-build.log 2>&1; rc_build=$?
 go test -vet=off -count=1 ./... > /tmp/confirm-suite.log 2>&1; rc_suite=$?
 ( eval "$demo_cmd" ) > /tmp/confirm-mut.log 2>&1; rc_mut=$?
+grep -qE "^(FAIL|--- FAIL|panic:)" /tmp/confirm-mut.log && rc_mut=1
 echo "RESULT build=$rc_build suite_with_change=$rc_suite demo_with_change=$rc_mut demo_without_change=$rc_clean"
 if [ $rc_build -eq 0 ] && [ $rc_suite -eq 0 ] && [ $rc_mut -ne 0 ] && [ $rc_clean -eq 0 ]; then echo CONFIRMED; else echo NOT-CONFIRMED; tail -5 /tmp/confirm-suite.log; fi
